@@ -175,7 +175,7 @@ CANDIDATE_NAMES = [chr(c) for c in range(ord("A"), ord("Z") + 1)] + ["Msg", "Que
     "Key", "Value", "Config", "State", "Ctx", "Deps", "Env", "Info", "Storage", "Event", "Token", "Owner",
     "Admin", "Payload", "Messages", "Sudo", "Migrate", "Instantiate", "Remote", "Interface"]
 # names that are reserved for associated types of interfaces (sylvia documents them) but are ordinary parameter names of a contract
-CONTRACT_ONLY_NAMES = ["Error", "ExecC", "QueryC"]
+CONTRACT_ONLY_NAMES = ["Error", "ExecC", "QueryC", "Contract"]
 
 
 def alias_programs(ctx):
@@ -357,7 +357,11 @@ def name_programs(ctx):
     for k, nm in enumerate(names):
         out.setdefault(f"nm{k % 8:02d}", []).append(name_program(nm, k))
     for k, nm in enumerate(CONTRACT_ONLY_NAMES):
-        out.setdefault(f"nm{k % 8:02d}", []).append(name_program(nm, len(names) + k, assoc=False))
+        q = name_program(nm, len(names) + k, assoc=False)
+        if nm == "Contract":
+            q["_render_kw"] = {"contract_ident": "Holder"}   # the contract type itself cannot be called like its parameter
+            q["parts"][0]["variant"] = "Holder"
+        out.setdefault(f"nm{k % 8:02d}", []).append(q)
     for k, (n1, n2) in enumerate([("Msg", "Data"), ("Z", "A"), ("Query", "Param"), ("T", "E"), ("Item", "Custom"), ("Value", "Key"), ("Error", "Data")]):
         out.setdefault(f"nm{k % 8:02d}", []).append(pair_program(n1, n2, k))
     return out
